@@ -10,9 +10,9 @@ class Prop:
     TARGETS = ['props/C01.vo']
     PROPS_FILE = 'props/C01.v'
     SUITES = [NodeSuite(evals={'mismatches': 'mismatches', 'spec_violations': 'spec_violations_c01'},
-                        quick=(800, 60), thorough=(15000, 300)),
+                        quick=(800, 60), thorough=(5000, 150)),
               ClusterSuite(evals={'mismatches': 'cmismatches', 'spec_violations': 'spec_violations_c01c'},
-                           quick=(40, 150), thorough=(1500, 500), quiet_rounds=14, convergent_cfg=True)]
+                           quick=(40, 150), thorough=(400, 300), quiet_rounds=14, convergent_cfg=True)]
     RULE = base.Prop.RULE
     ASSUMPTIONS = base.Prop.ASSUMPTIONS
     TRUSTED = base.Prop.TRUSTED
